@@ -453,13 +453,25 @@ def _create_transformed_glyph(
     return glyph
 
 
+def _z_order_key(root: Paint, context) -> Tuple[int, ...]:
+    # position of context.paint among its siblings, at each level from root down
+    key = []
+    for parent, child in zip(context.path, context.path[1:] + (context.paint,)):
+        key.append(next(i for i, c in enumerate(parent.children()) if c is child))
+    return tuple(key)
+
+
 def _colr0_layers(color_glyph: ColorGlyph, root: Paint, palette: Sequence[Color]):
     # COLRv0: write out each PaintGlyph we see in it's first color
     # If we see a transformed glyph generate a component
     # Results for complex structures will be suboptimal :)
     ufo = color_glyph.ufo
     layers = []
-    for context in root.breadth_first():
+    # breadth_first visits a shape wrapped in a (reuse) transform after its unwrapped
+    # siblings, which would change the z-order of layers inside a group; sort the
+    # contexts back into depth-first (paint) order.
+    contexts = sorted(root.breadth_first(), key=lambda c: _z_order_key(root, c))
+    for context in contexts:
         if context.paint.format != PaintGlyph.format:  # pytype: disable=attribute-error
             continue
         paint_glyph: PaintGlyph = (
